@@ -20,14 +20,14 @@ func flexH(x0, y0 int64, after ...Seg) []Seg {
 }
 
 // NumOutlines is the size of the outline family.
-const NumOutlines = 17
+const NumOutlines = 18
 
 // OutlineName names the members of the family.
 var OutlineName = [NumOutlines]string{
 	"empty", "triangle", "rect", "rect-back-to-start", "rrcurves", "hv-vh-curves", "circle",
 	"two-contours", "fractions", "dyadic-fractions", "flex-after-move", "flex-after-line",
 	"flex-after-curve", "vertical-flex-after-line", "number-boundaries", "mixed-hv",
-	"contour-starting-where-the-previous-one-ended",
+	"contour-starting-where-the-previous-one-ended", "nearly-axis-parallel-steps-far-from-the-origin",
 }
 
 // Outline returns member k of the outline family.
@@ -93,6 +93,12 @@ func Outline(k int) []Contour {
 			{P(250, 300), []Seg{L(400, 300), L(400, 500)}},
 			{P(400, 500), []Seg{C(420, 520, 440, 540, 460, 500), L(430, 480)}},
 		}
+	case 17:
+		// steps of 0.015 and 0.006 across the direction of travel, 20,000 and 30,000 units out
+		return []Contour{{pt(I(20000), I(-30000)), []Seg{
+			lq(I(20020), R(-30000*200+3, 200)), lq(R(20020*500+3, 500), I(-29950)),
+			cq(pt(I(20030), R(-29950*200+3, 200)), pt(I(20050), I(-29930)), pt(R(20050*500+3, 500), I(-29900))),
+			lq(I(20000), I(-29900))}}}
 	}
 	panic("no such outline")
 }
